@@ -292,7 +292,7 @@ func caseCLI(t *testing.T, tp *simrt.Tape, c *Ctx) (res Result) {
 
 func init() {
 	register(&PropSpec{ID: "C17", Engine: "cli", Fn: caseCLI, Quick: 60000, Thorough: 1500000, Level: "exploration",
-		Rule: "a case = 1..2 by-construction warriors written as explicit source files + a flag vector over -s -p -c -l -8 -r -F -preset (flag order drawn, core size >= 3*length+1) + either a fixed non-overlapping placement or random placement with the random source served by the simulator's seed; the freshly built cmd/gmars binary is run as a child process; stdout must equal the tallies the reference MARS computes (random placement: at the placements observed in the -debug event stream), exit status 0, and the same seed must reproduce stdout byte for byte; non-trivial = every case; distinct = distinct (arguments, warriors, seed)",
+		Rule:   "a case = 1..2 by-construction warriors written as explicit source files + a flag vector over -s -p -c -l -8 -r -F -preset (flag order drawn, core size >= 3*length+1) + either a fixed non-overlapping placement or random placement with the random source served by the simulator's seed; the freshly built cmd/gmars binary is run as a child process; stdout must equal the tallies the reference MARS computes (random placement: at the placements observed in the -debug event stream), exit status 0, and the same seed must reproduce stdout byte for byte; non-trivial = every case; distinct = distinct (arguments, warriors, seed)",
 		Real:   []string{"cmd/gmars binary (flag parsing, file reading, assembler, simulator, tally and printing)", "files on disk"},
 		Stubs:  []string{"math/rand (simrand shim seeded by the simulator, draws logged)"},
 		Assume: []string{"'-preset name' means the configuration gmars.PresetConfig(name) returns (DESIGN.md 8.3)", "process-level simulation: the only nondeterminism is the random source"}})
